@@ -183,7 +183,7 @@ def run(ctx):
                                 check_get(ctx, lib, nodes, idmap, par, ch, names, s, p, "/", ic, relax, case)
     ctx.exhaustive.append("all %d paths of <=3 components over {a,b,A,zz,..,.,''} (relative and absolute) x every start x all trees <=4 nodes x 6 name assignments x ignorecase x relax" % len(paths))
     # ---- random named trees
-    nrand = (48000 if T else 2400) // ctx.nshards + 1
+    nrand = (200000 if T else 2400) // ctx.nshards + 1
     seps = ["/", "|", "::", "\\", "->", "#", "/"]
     for r in range(nrand):
         rng = ctx.rng("rand", r)
@@ -209,7 +209,7 @@ def run(ctx):
         snames = [str(x) for x in names]
         case = {"kind": kind, "sep": sep, "par": list(par), "names": names, "pathattr": pathattr}
         roundtrips(ctx, lib, nodes, idmap, par, ch, names, sep, ic, case, pathattr)
-        comps_pool = snames + [x.swapcase() for x in snames] + ["..", "..", ".", "", "nope", "zz"]
+        comps_pool = snames + [x.swapcase() for x in snames] + ["..", "..", ".", "", "nope", "zz", "50%", "%s", "%(x)s"]
         if r % 3 != 0:
             # wildcard characters are ordinary characters for get
             comps_pool += ["*", "?", "a*", "s*"] + [x[:-1] + "?" for x in snames[:4]] + [x[:1] + "*" for x in snames[:4]]
@@ -236,7 +236,7 @@ def histories(ctx, lib):
     from .. import trees as TR
 
     T = ctx.tier == "thorough"
-    nh = (3000 if T else 240) // ctx.nshards + 1
+    nh = (30000 if T else 240) // ctx.nshards + 1
     pool = ["a", "b", "A", "B", "n1", "ab", "x*", "a?", "c"]
     for h in range(nh):
         rng = ctx.rng("hist", h)
@@ -247,7 +247,8 @@ def histories(ctx, lib):
             res = {key: one for key in res}
         names = None
         renames = []
-        for nodes, par, ch, case in TR.evolving_universe(ctx, rng, "Node", k, rng.randint(4, 16), fault_rate=(0.3 if h % 2 else 0.0)):
+        hfam = ("Node", "LM", "NM", "Node")[h % 4]
+        for nodes, par, ch, case in TR.evolving_universe(ctx, rng, hfam, k, rng.randint(4, 16), fault_rate=(0.3 if h % 2 else 0.0)):
             if names is None:
                 names = [n.name for n in nodes]
             for _ in range(rng.randint(0, 2)):
